@@ -104,7 +104,7 @@ C10Clauses(ev) ==
 \* ------------------------------------------------------------------ C11
 \* keyfacts: key id -> [fold, letter, lead]
 InDomain(keys, kf) ==
-  /\ \A key \in keys : kf[key].letter /\ kf[key].lead = "alpha"
+  /\ \A key \in keys : kf[key].letter /\ kf[key].lead \in {"alpha", "digit"}
   /\ Cardinality({kf[key].fold : key \in keys}) = Cardinality(keys)
 C11Clauses(ev) ==
   LET gen == ev.exc = ""
